@@ -2,6 +2,7 @@ import Dashu.Props.C15Values
 import Dashu.Props.C15GenEuclid
 import Dashu.Props.C15Link
 import Dashu.Props.C15LinkRem
+import Dashu.Props.C15CloneLink
 -- one audit module for the three round-5 theorem modules (one `lean` start instead of three)
 #print axioms Dashu.Props.C15Values.opAddSub_eq_review
 #print axioms Dashu.Props.C15Values.fDivRemEuclid_pair
@@ -49,3 +50,7 @@ import Dashu.Props.C15LinkRem
 #print axioms Dashu.Props.C15LinkRem.ringRemainders_spec
 #print axioms Dashu.Props.C15LinkRem.remSignif_greater_is_ring
 #print axioms Dashu.Props.C15LinkRem.ring_zero_divisor
+#print axioms Dashu.Props.C15CloneLink.clone_from_value
+#print axioms Dashu.Props.C15CloneLink.clone_from_value_indep_of_dst
+#print axioms Dashu.Props.C15CloneLink.clone_value
+#print axioms Dashu.Props.C15CloneLink.clone_eq_clone_from
